@@ -39,6 +39,11 @@ CLAIMS = {
    text="Schedule-independent structural hazards are decided for every interleaving: a buffer refilled by a receive loop must not reach a goroutine, channel or retained state without being copied (alias and retains summaries over the call graph); every NBNS opcode classification uses one mask that contains all dispatched Op* constants and lies within the R+OPCODE bits, all dispatchers map each opcode to the same handler, and each handler reaches its own name-table operation; every response's transaction id derives from its request's on every path and the LLMNR client's delivery is a non-blocking send to the query registered under the decoded id; every serve loop tests its quit channel each iteration, Stop closes that channel and unblocks the blocking call, goroutines are WaitGroup-paired, and request goroutines store only to per-request state. Absence of all races/deadlocks under every schedule and promptness are NOT decided.",
    note=TRUST + " Additional for C18: a table of standard-library alias/retention contracts; user-supplied LLMNR handlers (function values) are not followed; a quit mechanism that is not a channel would be reported.",
    design="§4 C18"),
+ "C06": dict(
+   technique="static analysis: per-type wire-layout symmetry from go/ssa (per buffer format, through inner blocks and delegation), exact bit lanes for the packed date, returned-count = encoded-width rules, E1 proof of 0 <= n <= len(data), and a trailing-byte independence rule",
+   text="For each of the 17 wire types the encoder and decoder layouts are extracted and required to agree atom by atom, decoder offsets to be contiguous, and the byte count returned on success to equal the encoder's width (a constant for fixed-size types; the end of the last field plus the encoder's trailing constant bytes for variable ones); the consumed count is proved to lie within the input for all inputs; the decoder must not compare the input length for (in)equality nor let it flow into a decoded value, so unrelated trailing bytes cannot change the result; SMB_DATE is decided by exact bit-lane provenance (day 0-4, month 5-8, year-1980 9-15, same bias both ways). These are necessary structural conditions of 'decodes its own encoding and consumes exactly it'; equality of arbitrary field values follows for whole-byte fields and the packed date inside its stated lossless ranges only.",
+   note=TRUST + " Additional for C06: encoding/binary accessor layouts; string content rules (embedded NUL), file-name padding and out-of-range date values are not decided. One known finding (SMB_NMPIPE_STATUS exact-length test) is pinned by an existing unit test.",
+   design="§4 C06"),
  "C07": dict(
    technique="static analysis: linear-fact prover over go/ssa discharging the Go compiler's residual bounds checks, plus panic-source, allocation, loop-ranking and recursion rules over the call graph from the decoder entry points",
    text="Every index/slice/fixed-width-accessor site, division, assertion, make() size, loop and call cycle reachable from the rule-selected decoder entry points is an obligation decided for all inputs at once: bounds sites are discharged either by the Go compiler's prove pass or by entailment from dominating conditions, non-wrapping definitions, loop invariants and callee summaries (Fourier-Motzkin over integers). This is the right level because the property quantifies over all byte strings and a missing guard is a structural fact of the code; it is not a 'proof' claim because some helper decoders without an error path remain as recorded known findings.",
